@@ -27,3 +27,34 @@ package satisfaction
 //@ func (*SatisfactionBiasListener).Merge
 //@   property C07 C18
 //@   refines model.BiasListener.Merge with validParams=saValid, coversId=saCovers, accepts=saAccepts, acceptsAny=saAcceptsAny
+
+// ---- the heuristic's building blocks (C13)
+
+//@ func isGoodEnough
+//@   property C13
+//@   ensures [meets_every_threshold] result <==> forall k int :: 0 <= k && k < len(*thresholds) ==> model.signed(alternative, (*thresholds)[k].Criterion) >= model.mult((*thresholds)[k].Criterion) * (*thresholds)[k].Weight
+//@   loop 1 invariant [so_far] forall k int :: 0 <= k && k < iter ==> model.signed(alternative, (*thresholds)[k].Criterion) >= model.mult((*thresholds)[k].Criterion) * (*thresholds)[k].Weight
+
+//@ pred acceptedAt(r model.AlternativeResult, alt model.AlternativeWithCriteria, level int, thresholds model.Weights) =
+//@      r.Alternative == alt && typeis(r.Evaluation, SatisfactionEvaluation)
+//@   && r.Evaluation.(SatisfactionEvaluation).ThresholdsIndex == level && r.Evaluation.(SatisfactionEvaluation).SatisfiedThresholds == thresholds
+
+//@ func updateResult
+//@   property C13
+//@   requires 0 <= resultInsertIndex && resultInsertIndex < len(result) && resultInsertIndex < len(resultIds)
+//@   assigns result, resultIds
+//@   ensures [slot_written] acceptedAt(result[resultInsertIndex], alternative, alternativeValue, *thresholds) && resultIds[resultInsertIndex] == alternative.Id
+//@   ensures [next_slot_is_below] result0 == resultInsertIndex + 1
+//@   ensures [others_unchanged] (forall k int :: 0 <= k && k < len(result) && k != resultInsertIndex ==> result[k] == old(result[k]))
+//@             && (forall k int :: 0 <= k && k < len(resultIds) && k != resultInsertIndex ==> resultIds[k] == old(resultIds[k]))
+
+// the fallback thresholds: the worst end of every criterion's range (declared range first, else observed over all known alternatives)
+//@ func weightsSupplier$1
+//@   property C13
+//@   ensures [worst_of_declared_range] fresh(result) && forall k int :: 0 <= k && k < len(dmp.Criteria) && dmp.Criteria[k].ValuesRange != nil
+//@             && (forall j int :: k < j && j < len(dmp.Criteria) ==> dmp.Criteria[j].Id != dmp.Criteria[k].Id) ==>
+//@             dmp.Criteria[k].Id in result && result[dmp.Criteria[k].Id] == (dmp.Criteria[k].Type == model.Cost ? dmp.Criteria[k].ValuesRange.Max : dmp.Criteria[k].ValuesRange.Min)
+//@   loop 1 invariant [ctx] fresh(weights) && weights != nil
+//@   loop 1 invariant [filled] forall k int :: 0 <= k && k < iter && dmp.Criteria[k].ValuesRange != nil
+//@             && (forall j int :: k < j && j < iter ==> dmp.Criteria[j].Id != dmp.Criteria[k].Id) ==>
+//@             dmp.Criteria[k].Id in weights && weights[dmp.Criteria[k].Id] == (dmp.Criteria[k].Type == model.Cost ? dmp.Criteria[k].ValuesRange.Max : dmp.Criteria[k].ValuesRange.Min)
